@@ -61,10 +61,12 @@ PLANS["C05"] = {
     "exhaustive": "the (width, order, signedness, offset) grid; values are sampled",
     "assumptions": ["little-endian for widths that are not a byte multiple is defined on the value's 8-bit groups (first group least "
                     "significant, last partial group most significant), which is what from_int emits",
-                    "language-level uint is only checked up to 127 bits (the i128 cell cannot hold a 128-bit unsigned value)"],
+                    "language-level uint is only checked up to 127 bits (the i128 cell cannot hold a 128-bit unsigned value)",
+                    "a float read by a language word and packed again by the matching pack word must give the same bits (NaN sign and payload "
+                    "included); 32-bit signalling NaNs are excluded there because no 64-bit interpreter value narrows to one"],
     "require": [need("cells:little:signed", 1024), need("cells:little:unsigned", 1024), need("cells:big:signed", 1024),
                 need("cells:big:unsigned", 1024), need("float_cells", 32), need_set("float_classes", 13), need_set("lang_words", 60),
-                need("api_round_trips", 1000000)],
+                need("api_round_trips", 1000000), need("lang_float_repacks", 20000)],
 }
 
 PLANS["C09"] = {
